@@ -82,6 +82,10 @@ fn positions(a: &Ast, fam: Fam, len: usize) -> Vec<usize> {
     }
     v.sort_unstable();
     v.dedup();
+    if v.len() > 400 {
+        let stride = v.len() / 400 + 1;
+        v = v.into_iter().step_by(stride).collect();
+    }
     v
 }
 
